@@ -16,6 +16,15 @@ pub struct Gc<T> { p: core::marker::PhantomData<T> }
 impl<T> Clone for Gc<T> { #[verifier::external_body] fn clone(&self) -> (r: Self) ensures r == *self { Gc { p: core::marker::PhantomData } } }
 impl<T> Copy for Gc<T> {}
 pub struct ObjClosure { }
+// "address a lies inside the code of closure c's function" (chunk.code.as_ptr_range().contains(&a))
+pub uninterp spec fn in_code(c: Gc<ObjClosure>, a: usize) -> bool;
+pub struct CodeRange { pub ghost c: Gc<ObjClosure> }
+impl CodeRange {
+    #[verifier::external_body]
+    pub fn contains(&self, a: &usize) -> (r: bool) ensures r == in_code(self.c, *a) { unimplemented!() }
+}
+#[verifier::external_body]
+fn code_range(c: &Gc<ObjClosure>) -> (r: CodeRange) ensures r.c == *c { unimplemented!() }
 
 #[verifier::external_body]
 pub struct Value { _p: u8 }
@@ -113,6 +122,17 @@ impl ObjFiber {
     //@  ensures final(self).stack == old(self).stack, final(self).frames == old(self).frames, final(self).exc_handlers == old(self).exc_handlers
     //@end
 
+    // The failure address handed to the trace builder must lie in the code of the frame it is stored into: it is turned
+    // into a line number by indexing that frame's chunk (Chunk::code_offset + lines[..]) — a foreign address is a host
+    // panic (checked build: subtraction overflow) or a wild index (optimised build).
+    //@fn file=yarel/src/object.rs path=ObjFiber::store_error_ip_or props=C17,C02
+    //@  sig "*const u8" => "usize"
+    //@  subst "frame.closure.function.chunk.code.as_ptr_range()" => "code_range(&frame.closure)"
+    //@  requires old(self).frames@.len() > 0, in_code(old(self).frames@.last().closure, alternative)
+    //@  ensures @reported_address_lies_in_the_reporting_frame final(self).frames@.len() == old(self).frames@.len() && in_code(final(self).frames@.last().closure, final(self).frames@.last().ip) && final(self).frames@.last().closure == old(self).frames@.last().closure
+    //@  ensures final(self).frames@.drop_last() == old(self).frames@.drop_last(), final(self).stack == old(self).stack, final(self).exc_handlers == old(self).exc_handlers
+    //@end
+
     // object.rs close_upvalues(index): closes captured variables from slot `index` up; touches neither stack content
     // nor handlers (its own contract: unit `upvalues`)
     #[verifier::external_body]
@@ -121,7 +141,7 @@ impl ObjFiber {
     fn current_frame_mut(&mut self) -> (r: Option<&mut CallFrame>)
         requires old(self).frames@.len() > 0
         ensures r matches Some(f) && *f == old(self).frames@.last() && final(self).frames@ == old(self).frames@.drop_last().push(*final(f))
-            && final(f).slot_base == f.slot_base,
+            && final(f).slot_base == f.slot_base && final(f).closure == f.closure,
             final(self).stack == old(self).stack, final(self).exc_handlers == old(self).exc_handlers,
             final(self).return_ip == old(self).return_ip, final(self).return_value == old(self).return_value,
             final(self).error_ip == old(self).error_ip,
@@ -212,6 +232,7 @@ impl Vm {
     //@  ensures old(self).fib.exc_handlers@.len() > 0 ==> final(self).ip == old(self).fib.exc_handlers@.last().catch_ip && final(self).fib.frames@.last().slot_base == old(self).fib.frames@[old(self).fib.exc_handlers@.last().frame_count - 1].slot_base
     //@  ensures old(self).fib.exc_handlers@.len() > 0 ==> final(self).handling_exception == (old(self).fib.exc_handlers@.last().finally_ip == old(self).fib.exc_handlers@.last().catch_ip)
     //@  ensures final(self).fib.handlers_ok()
+    //@  ensures @caught_exception_leaves_no_failure_address (r is Ok && !final(self).handling_exception) ==> final(self).fib.error_ip is None
     //@end
 
     // throw: marks the exception as in flight and delivers it
